@@ -81,7 +81,7 @@ PROPS = {
         level_note="Requests enter through http.ReadRequest (the parser net/http's server uses) and a ResponseRecorder instead of a client socket; wire framing of the proxy's own server is net/http's and not re-checked. Hop-by-hop headers are not asserted either way.",
         units=[
         unit("c07", "proxy", PROXY_COMMON + ["proxy/c07_test.go"], "^TestVerifC07"),
-    ], layers={"quick": ["c07-request", "c07-response"], "thorough": ["c07-request", "c07-response"]}),
+    ], layers={"quick": ["c07-request", "c07-response", "c07-wire"], "thorough": ["c07-request", "c07-response", "c07-wire"]}),
     "C08": dict(level="exploration", engine="benum",
         technique="bounded-exhaustive product of header configurations x connection kinds x every subset of forged managed headers through the real HTTPProxy (and real plain/TLS listeners for websockets)",
         level_text="Every header-related configuration (72 quick / 144 thorough) x plain/TLS x all 2^8 subsets of client-forged managed headers (+ repeated and lower-case spellings) x Host with/without port x IPv4/IPv6 peer, plus websocket upgrades over real plain and TLS listeners, is served by the real proxy to a recording upstream and checked against the six clauses of the statement.",
@@ -165,11 +165,12 @@ PROPS = {
         level_text="For every scenario of the product listener kind x PROXY protocol x client segmentation x close order x reply timing, every interleaving (preemption bound 1 quick, 2 thorough) of client, upstream, ServeTCP and its two copier goroutines is executed on the real proxy code over in-memory connections and the delivered byte streams are checked for prefix/exactly-once/in-order delivery and for completeness towards whichever side finished first.",
         level_note="Kernel TCP behaviour (RST on close with unread data, Nagle, buffers) is not modelled: a write towards a peer that already closed succeeds and is discarded. TLS-wrapped listeners are byte-transparent above crypto/tls and not re-explored.",
         units=[
-        unit("c09", "proxy/tcp", TCP_COMMON + ["tcp/c10_test.go", "tcp/c09_test.go"], "^TestVerifC09", engines=SCHED + ["vhook", "vnet"], sched_env={"GOMAXPROCS": "1"}, shards={"quick": 8, "thorough": 16},
+        unit("c09", "proxy/tcp", TCP_COMMON + ["tcp/c10_test.go", "tcp/c09_test.go"], "^TestVerifC09Tunnels", engines=SCHED + ["vhook", "vnet"], sched_env={"GOMAXPROCS": "1"}, shards={"quick": 8, "thorough": 16},
              rewrite=[{"files": ["proxy/tcp/tcp_proxy.go", "proxy/tcp/sni_proxy.go", "proxy/tcp/tcp_dynamic_proxy.go"], "opts": ["-go", "-chan", "-sel", "net.DialTimeout=vhook.DialTimeout"]}]),
         unit("c09-ws", "proxy", PROXY_COMMON + ["proxy/c09_ws_test.go"], "^TestVerifC09", engines=SCHED + ["vhook", "vnet"], sched_env={"GOMAXPROCS": "1"}, shards={"quick": 4, "thorough": 16},
              rewrite=[{"files": ["proxy/ws_handler.go"], "opts": ["-imports", "-go", "-chan"]}]),
-    ], layers={"quick": ["c09-tunnels", "c09-websocket"], "thorough": ["c09-tunnels", "c09-websocket"]}),
+        unit("c09-sockets", "proxy/tcp", TCP_COMMON + ["tcp/c10_test.go", "tcp/c09_test.go", "tcp/c09_sock_test.go"], "^TestVerifC09Sockets", engines=SCHED + ["vhook", "vnet"]),
+    ], layers={"quick": ["c09-tunnels", "c09-websocket", "c09-sockets"], "thorough": ["c09-tunnels", "c09-websocket", "c09-sockets"]}),
     "C18": dict(level="model_checking", engine="vsched",
         technique="stateless model checking of tcp.Server Serve/Shutdown under a controlled scheduler with virtual time + exhaustive scenario matrix on real http/https/tcp/grpc/sni servers with causal barriers",
         level_text="(core) every interleaving up to the reported preemption bound of the real tcp.Server accept loop, 1-2 connection handlers (finishing early, late or never), a late connect and Shutdown with a virtual 10 s wait: no accept after the listeners were closed, early handlers are not cut off, Shutdown returns by the wait and leaves no connection open, no deadlock. (servers) the matrix listener kind x in-flight work x shutdown moment on real servers started through fabio's ListenAndServe* and stopped with proxy.Shutdown.",
@@ -189,7 +190,7 @@ PROPS = {
 }
 
 LAYER_UNIT = {"c06-sched": "c06", "c03-select": "c03", "c03-lookuphost": "c03", "c04-add": "c04", "c04-weightcmd": "c04", "c05-commands": "c05",
-              "c07-request": "c07", "c07-response": "c07", "c08-headers": "c08", "c08-websocket": "c08", "c09-tunnels": "c09", "c09-websocket": "c09-ws",
+              "c07-request": "c07", "c07-response": "c07", "c07-wire": "c07", "c08-headers": "c08", "c08-websocket": "c08", "c09-tunnels": "c09", "c09-websocket": "c09-ws",
               "c10-sni": "c10", "c12-rules": "c12-rules", "c13-inputs": "c13", "c13-sched": "c13", "c14-registrations": "c14", "c15-sources": "c15-config",
               "c15-robust": "c15-config", "c16-calls": "c16", "c16-history": "c16", "c19-config": "c19", "c19-behaviour": "c19", "c20-fields": "c20-logger",
               "c20-formats": "c20-logger", "c20-atoi": "c20-logger", "c01-health": "c01-health"}
